@@ -165,8 +165,12 @@ func runC13(rc *sim.RunCtx) {
 				seen[s.p.String()] = true
 				m.upds = append(m.upds, NewMLeaf(si, s.p, s.lex[t.Choose(len(s.lex))]))
 			}
-			if len(m.upds) > 0 && len(m.dels) == 0 && t.Bool(1, 6) {
+			if len(m.upds) > 0 && t.Bool(1, 5) {
+				// a JSON blob, possibly in the same notification as a delete (replace of an entry)
 				m.json = true
+				if len(m.dels) > 0 {
+					rc.Probe("json-blob-with-delete")
+				}
 			}
 			script = append(script, m)
 		}
@@ -346,7 +350,7 @@ func init() {
 		ID: "C13", Level: "exploration", Run: runC13,
 		Rule: "a scripted device pushes 4-13 (thorough up to 27) sync messages - re-sync cycles (start/notifications/end), on-change updates and deletes (leaf, list entry, container; keys a/ab/b so that names extend one another), repeated writes to the same path, JSON blobs, state leaves - into the real Datastore.Sync with write workers 1/2/16, buffer 1/8/10000, sync validation on/off. Every cache Modify of a sync worker parks in the cache decorator; the seeded scheduler chooses the completion order (including writes of an older notification landing after a newer one and after the prune). After quiescence CONFIG and STATE are compared with a sequential running-mirror model. Non-trivial = deletes or close-by writes to one path with >1 worker; distinct = configuration + released-task sequence.",
 		Real: append(append([]string{}, realCore...), "pkg/datastore Sync / storeSyncMsg", "pkg/utils converter (notification conversion)"), Stub: append(append([]string{}, stubCore...), "device Sync stream (scripted notifications pushed into the sync channel)"),
-		RequiredProbes: []string{"delete-notification", "resync-cycle", "same-path-writes-close"}, MapOrderSensitive: true,
+		RequiredProbes: []string{"delete-notification", "resync-cycle", "same-path-writes-close", "json-blob-with-delete"}, MapOrderSensitive: true,
 		QuickSeconds: 30, ThoroughSeconds: 480,
 	})
 }
